@@ -42,8 +42,8 @@ Proof. intro H. unfold fetch_add, set_credit. cbn [credit]. apply N.mod_small. e
 
 (* ---------------- Constraints / one segment ---------------- *)
 
-Lemma assemble_le minpkt c buf want :
-  let '(c', s) := assemble minpkt c buf want in
+Lemma assemble_le minpkt c buf want fl :
+  let '(c', s) := assemble minpkt c buf want fl in
   s <= cl c /\ s <= buf /\ cl c' = cl c - s /\ (0 < s -> 0 < want).
 Proof.
   unfold assemble, constrain, commit.
@@ -54,20 +54,39 @@ Proof.
   - rewrite N.ltb_irrefl. repeat split; lia.
 Qed.
 
+(* any number of packets written through one Constraints value - in flight or not - stay within its credit limit:
+   every commit charges the credit *)
+Lemma assemble_all_le minpkt ps : forall c buf,
+  let '(c', s) := assemble_all minpkt c buf ps in
+  s <= cl c /\ s <= buf /\ cl c' = cl c - s.
+Proof.
+  induction ps as [| p t IH]; intros c buf; cbn [assemble_all]; [repeat split; lia |].
+  pose proof (assemble_le minpkt c buf (pk_want p) (pk_fl p)) as H1.
+  destruct (assemble minpkt c buf (pk_want p) (pk_fl p)) as [c1 s1].
+  specialize (IH c1 (buf - s1)). destruct (assemble_all minpkt c1 (buf - s1) t) as [c2 s2].
+  destruct H1 as (A1 & A2 & A3 & _). destruct IH as (B1 & B2 & B3). repeat split; lia.
+Qed.
+
 Lemma load_segment_le minpkt c buf r n :
   load_segment minpkt (BSome c) buf r = SegOk n ->
   (sg_wi r = 0 \/ buf <= c) -> n <= c.
 Proof.
   unfold load_segment. intros E Hk.
-  pose proof (assemble_le minpkt (mkcons c (sg_quota r)) buf (sg_wi r)) as H1.
-  destruct (assemble minpkt (mkcons c (sg_quota r)) buf (sg_wi r)) as [c1 s1].
-  pose proof (assemble_le minpkt c1 (buf - s1) (sg_wo r)) as H2.
-  destruct (assemble minpkt c1 (buf - s1) (sg_wo r)) as [c2 s2].
-  cbn [cl] in H1. destruct H1 as (A1 & A2 & A3 & A4). destruct H2 as (B1 & B2 & B3 & B4).
+  pose proof (assemble_le minpkt (mkcons c (sg_quota r)) buf (sg_wi r) (pk_fl (sg_ini r))) as H1.
+  destruct (assemble minpkt (mkcons c (sg_quota r)) buf (sg_wi r) (pk_fl (sg_ini r))) as [c1 s1].
+  pose proof (assemble_all_le minpkt (sg_rest r) c1 (buf - s1)) as H2.
+  destruct (assemble_all minpkt c1 (buf - s1) (sg_rest r)) as [c2 s2].
+  cbn [cl] in H1. destruct H1 as (A1 & A2 & A3 & A4). destruct H2 as (B1 & B2 & B3).
   destruct (N.ltb_spec 0 s1) as [Hs1 | Hs1].
   - injection E as <-. destruct Hk as [Hk | Hk]; [specialize (A4 Hs1); lia | exact Hk].
   - destruct (0 <? s1 + s2); [| discriminate]. injection E as <-. lia.
 Qed.
+
+(* one datagram (any number of coalesced packets, in flight or not) stays within the credit its assembler read, unless it
+   carries an Initial packet and is padded (class F19) *)
+Lemma p_c15_segment_within_credit : forall minpkt c buf r n,
+  load_segment minpkt (BSome c) buf r = SegOk n -> (sg_wi r = 0 \/ buf <= c) -> n <= c.
+Proof. exact load_segment_le. Qed.
 
 (* ---------------- histories with ghost counters ---------------- *)
 
